@@ -188,6 +188,16 @@ def parse_assumptions(src, stdout):
     return res
 
 
+def _mem_cap():
+    # a runaway implementation (an endless generator collected into a list ...) must end in a MemoryError
+    # of its own process, not in the exhaustion of the machine
+    import resource
+    try:
+        resource.setrlimit(resource.RLIMIT_AS, (12 * 1024 ** 3, 12 * 1024 ** 3))
+    except Exception:
+        pass
+
+
 def _big_stack():
     """coqc parses multi-MB list literals recursively: lift the stack limit for the child"""
     import resource
@@ -375,7 +385,7 @@ class Ctx:
             p = subprocess.Popen([PY, str(VERIF / 'harness/implrun.py'), self.pid, func,
                                   str(fin), str(fout)], env=dict(impl_env(), **(env_extra or {})),
                                  stdout=subprocess.PIPE, stderr=subprocess.STDOUT, text=True,
-                                 cwd=str(self.work))
+                                 cwd=str(self.work), preexec_fn=_mem_cap)
             procs.append((part, fout, p))
         obs = [None] * len(cases)
         for part, fout, p in procs:
